@@ -199,6 +199,99 @@ def execute(case):
     return evaluate(case, obs)
 
 
+def evaluate_txn(case, obs):
+    """Transactional producers are idempotent producers: the sequence chain of a (producer id, epoch) runs on
+    across its transactions, and every acknowledged record is appended exactly once (committed or aborted)."""
+    from . import _txn_sim as TS
+    out = Outcome()
+    c = obs.cluster
+    for e in c.harness_errors:
+        raise RuntimeError("simulator error: %s" % e)
+    per_tp = {}
+    for a in c.arrivals:
+        if a.key != 0:
+            continue
+        for b in a.extra.get("batches", []):
+            per_tp.setdefault("%s:%d" % tuple(b["tp"]), []).append((a, b))
+    chained = False
+    resent = False
+    for tpk, lst in sorted(per_tp.items()):
+        lst.sort(key=lambda ab: (ab[0].t_written, ab[0].seq))
+        seq_state = {}
+        for a, b in lst:
+            ids = [TS.value_tag(v or b"") for v in b["values"]]
+            if b["pid"] < 0:
+                out.fail("seq_chain", "no_producer_id", {"tp": tpk, "arrival": a.seq}, transactional=True)
+                continue
+            key = (b["pid"], b["epoch"])
+            bs, cnt = b["base_seq"], b["count"]
+            if not (0 <= bs <= PS.SEQ_MAX):
+                out.fail("seq_chain", "out_of_range", {"tp": tpk, "base_seq": bs, "arrival": a.seq}, transactional=True)
+            st = seq_state.get(key)
+            if st is None:
+                if bs != 0:
+                    out.fail("seq_chain", "bad_first_sequence", {"tp": tpk, "base_seq": bs, "want": 0, "pid_epoch": key},
+                             transactional=True)
+                seq_state[key] = {"last": (bs, cnt, ids), "all": [(bs, cnt, ids)]}
+                continue
+            lb, lc, lids = st["last"]
+            if (bs, cnt, ids) == (lb, lc, lids):
+                resent = True
+                continue
+            want = SC.seq_add(lb, lc)
+            if bs == want:
+                if set(ids) & {i for (_, _, x) in st["all"] for i in x}:
+                    out.fail("seq_chain", "records_resent_under_new_sequence", {"tp": tpk, "ids": ids}, transactional=True)
+                if {i[0] for i in ids if i} - {i[0] for i in lids if i}:
+                    chained = True                     # a later transaction continues the chain of an earlier one
+            elif any((bs, cnt, ids) == x for x in st["all"]):
+                out.fail("seq_chain", "old_batch_resent_after_newer", {"tp": tpk, "base_seq": bs}, transactional=True)
+                continue
+            elif any(bs == x[0] for x in st["all"]):
+                out.fail("seq_chain", "reused_sequence", {"tp": tpk, "base_seq": bs, "count": cnt, "ids": ids,
+                                                          "pid_epoch": key}, transactional=True)
+            else:
+                out.fail("seq_chain", "gap", {"tp": tpk, "base_seq": bs, "want": want, "prev": [lb, lc], "pid_epoch": key},
+                         transactional=True)
+            st["last"] = (bs, cnt, ids)
+            st["all"].append((bs, cnt, ids))
+    # every acknowledged record sits in its partition log exactly once, every accepted one at most once
+    rc, ru = TS.committed_view(obs)
+    for srec in obs.sends:
+        places = ru.get(srec["id"], [])
+        if len(places) > 1:
+            out.fail("idem_once", "duplicate", {"id": srec["id"], "places": places}, transactional=True)
+        oc = srec.get("outcome")
+        if oc and oc[0] == "ok" and not places:
+            out.fail("idem_once", "acknowledged_but_absent", {"id": srec["id"], "outcome": oc}, transactional=True)
+    out.nontrivial = chained
+    if chained:
+        out.label("chain_continues_across_transactions")
+    if resent:
+        out.label("batch_resent")
+    if c.fault_log:
+        out.label("fault_fired")
+    out.label("transactional", "producers_%d" % len(case["procs"]))
+    out.info = {"sends": len(obs.sends), "produce_requests": sum(1 for a in c.arrivals if a.key == 0),
+                "faults_fired": len(c.fault_log)}
+    return out
+
+
+def execute_txn(case):
+    from . import _txn_sim as TS
+    return evaluate_txn(case, TS.run(case))
+
+
+def _txn_strategy():
+    from . import c07
+    return c07.strategy()
+
+
+def _txn_setup():
+    from . import _txn_sim as TS
+    TS.setup()
+
+
 def campaigns(tier):
     th = tier == "thorough"
     return [
@@ -206,4 +299,6 @@ def campaigns(tier):
                  examples=40000 if th else 6000, setup=PS.setup, max_wall=900 if th else 100, shrink_wall=40),
         Campaign("sequence_wrap", "hyp", execute=execute, strategy=lambda: PS.strategy("order", wrap=True),
                  examples=4000 if th else 600, setup=PS.setup, max_wall=300 if th else 40, shrink_wall=30),
+        Campaign("txn_chain", "hyp", execute=execute_txn, strategy=_txn_strategy,
+                 examples=10000 if th else 1500, setup=_txn_setup, max_wall=400 if th else 60, shrink_wall=30),
     ]
